@@ -50,7 +50,7 @@ func (lv LiteralValue) EmptyCompletionData(ctx context.Context, nextPlaceholder 
 		}
 	}
 	if lv.Value.Type().IsPrimitiveType() {
-		var value string
+		var value, snippet string
 		switch lv.Value.Type() {
 		case cty.Bool:
 			value = fmt.Sprintf("%t", lv.Value.True())
@@ -63,15 +63,20 @@ func (lv LiteralValue) EmptyCompletionData(ctx context.Context, nextPlaceholder 
 					value += "\n"
 				}
 			} else {
-				value = fmt.Sprintf("%q", lv.Value.AsString())
+				// the value is meant literally, not as a template
+				value = fmt.Sprintf("%q", escapeTemplateSequences(lv.Value.AsString()))
+				snippet = escapeSnippetText(value)
 			}
 		case cty.Number:
 			value = formatNumberVal(lv.Value)
 		}
+		if snippet == "" {
+			snippet = value
+		}
 
 		return CompletionData{
 			NewText:         value,
-			Snippet:         value,
+			Snippet:         snippet,
 			NextPlaceholder: nextPlaceholder,
 		}
 	}
@@ -379,6 +384,19 @@ func sortedValueMap(valueMap map[string]cty.Value) []string {
 
 	sort.Strings(names)
 	return names
+}
+
+// escapeTemplateSequences escapes the sequences which would start
+// an interpolation or a directive in a quoted HCL string
+func escapeTemplateSequences(s string) string {
+	s = strings.ReplaceAll(s, "${", "$${")
+	return strings.ReplaceAll(s, "%{", "%%{")
+}
+
+// escapeSnippetText escapes the characters which have
+// a special meaning in the snippet syntax
+func escapeSnippetText(s string) string {
+	return strings.NewReplacer(`\`, `\\`, `$`, `\$`, `}`, `\}`).Replace(s)
 }
 
 func formatNumberVal(val cty.Value) string {
